@@ -40,10 +40,16 @@ type w13Conn struct {
 }
 
 type w13Case struct {
-	Shape string    `json:"shape,omitempty"` // generator's case shape (informational)
-	Tries int       `json:"tries,omitempty"` // replays only: timing-dependent case, run up to this many times
-	Cross string    `json:"cross,omitempty"` // reply-batch shape: how the batched replies meet the end of the 4096-byte writer buffer
-	Conns []w13Conn `json:"conns"`
+	Shape string `json:"shape,omitempty"` // generator's case shape (informational)
+	Tries int    `json:"tries,omitempty"` // replays only: timing-dependent case, run up to this many times
+	Cross string `json:"cross,omitempty"` // reply-batch shape: how the batched replies meet the end of the 4096-byte writer buffer
+	Pool  string `json:"pool,omitempty"`  // pool shape: resource kind / way of release
+	PoolN int    `json:"pool_n,omitempty"`
+	// exec-tight shape: stage+1, nested length minus bytes present, property block length (-1: none)
+	ExecStage int       `json:"exec_stage,omitempty"`
+	ExecDelta int       `json:"exec_delta,omitempty"`
+	ExecProps int       `json:"exec_props,omitempty"`
+	Conns     []w13Conn `json:"conns"`
 }
 
 func (c *w13Case) fingerprint() uint64 {
